@@ -207,7 +207,7 @@ def cases(E):
         cs.append(Case(H + "node_frame_contract", cls, shape_frame(cls), target=[N + cls + ".emit", N + cls + ".pc_after"]))
     # "the active address mapping" by default is one of the two LIVE built-in buses: their bank sets and offsets against the textbook formulas (C04's contracts)
     from vf.props import C04 as c04
-    cs += c04.live_bus_cases(E)
+    cs += c04.live_bus_cases(E) + c04.address_contract_cases(E)
     return cs
 
 
